@@ -28,7 +28,7 @@ LEVEL_NOTE = ("Tolerance 1e-6 relative to the largest contributing node (float32
 RULE = ("case = one world x 3 subgrids x 2000 positions (kinds: random nodes, per-level linear, linear in x,y,z over a flat bottom). Non-trivial: land faces contribute, positions "
         "on edges/rim and depths outside the level range are present; distinct by world parameters.")
 MANDATORY = ["positions_compared", "land_face_contributes", "depth_above_top_level", "depth_below_bottom_level", "depth_on_level", "edge_tie_positions", "rim_positions",
-             "packed_storage", "subgrid_pairs_compared", "scalar_values_compared", "linear_levels_exact", "linear3d_exact", "convexity_checked", "vtransform2"]
+             "packed_storage", "subgrid_pairs_compared", "scalar_values_compared", "linear_levels_exact", "linear3d_exact", "convexity_checked", "vtransform2", "e2e_displacements_checked", "e2e_scalar_values_checked"]
 ASSUMPTIONS = ["add_offset of packed u/v is zero (the code documents that it ignores it)", "positions inside the valid region of every subgrid used"]
 TIMEOUT = {"quick": 900, "thorough": 3400}
 
@@ -39,6 +39,7 @@ def gen_cases(tier: str, seed: int) -> list[dict[str, Any]]:
     for i in range(n):
         kind = ["random", "random", "random", "linear_levels", "linear3d", "random"][i % 6]
         cases.append(dict(seed=seed, idx=i, kind=kind, npos=2000))
+    cases += [dict(seed=seed, idx=i, kind="e2e") for i in range(24 if tier == "quick" else 3000)]
     return cases
 
 
@@ -76,7 +77,99 @@ def level_pair(zcol: np.ndarray, Z: float):
     return k - 1, k, float(w0), cand
 
 
+def ref_velocity(raw, M, ZR, x: float, y: float, z: float):
+    """Independent interpolation at a non-tie position: (u, v, admissible scalar levels of the own cell)."""
+    u, v = raw["u"], raw["v"]
+    MU = M[:, :-1] * M[:, 1:]
+    MV = M[:-1, :] * M[1:, :]
+    jc, ic = int(round(y)), int(round(x))
+    k0, k1, w0, cand = level_pair(ZR[:, jc, ic], z)
+    iu = int(np.floor(x - 0.5))
+    pu = x - 0.5 - iu
+    ju = int(np.floor(y))
+    qu = y - ju
+    iv = int(np.floor(x))
+    pv = x - iv
+    jv = int(np.floor(y - 0.5))
+    qv = y - 0.5 - jv
+    eu = ev = 0.0
+    for wgt, j, i in (((1 - pu) * (1 - qu), ju, iu), (pu * (1 - qu), ju, iu + 1), ((1 - pu) * qu, ju + 1, iu), (pu * qu, ju + 1, iu + 1)):
+        if wgt:
+            eu += wgt * MU[j, i] * (w0 * u[k0, j, i] + (1 - w0) * u[k1, j, i])
+    for wgt, j, i in (((1 - pv) * (1 - qv), jv, iv), (pv * (1 - qv), jv, iv + 1), ((1 - pv) * qv, jv + 1, iv), (pv * qv, jv + 1, iv + 1)):
+        if wgt:
+            ev += wgt * MV[j, i] * (w0 * v[k0, j, i] + (1 - w0) * v[k1, j, i])
+    return eu, ev, (jc, ic, cand)
+
+
+def run_e2e(case: dict[str, Any], wd: Path) -> dict[str, Any]:
+    """End to end: one-step Euler-forward displacement and the scalar instance variable in the output file."""
+    from vmon.scenario import all_records, read_outputs, run_scenario  # noqa: PLC0415
+
+    rng = C.rng_for(case["seed"], 22, case["idx"])
+    imax, jmax, N = int(rng.integers(10, 30)), int(rng.integers(10, 24)), int(rng.integers(2, 12))
+    Vt = int(rng.choice([1, 2]))
+    dx, dy = float(rng.choice([400.0, 1000.0])), float(rng.choice([400.0, 1500.0]))
+    dt = 300
+    sub = [2, imax - 2, 3, jmax - 2] if rng.random() < 0.5 else None
+    spec = dict(imax=imax, jmax=jmax, N=N, t0=C.T0, frames=[0, 1800], files=[1, 1], vel=dict(kind="random", seed=case["idx"], scale=0.4 * min(dx, dy) / dt), store="f8",
+                h=dict(kind="random", hmin=10.0, hmax=300.0, seed=case["idx"]), mask=dict(kind="random", p=0.12, seed=case["idx"]),
+                vert=dict(Vtransform=Vt, Vstretching=int(rng.choice([1, 4])), theta_s=float(rng.uniform(1, 6)), theta_b=float(rng.uniform(0.1, 0.9)),
+                          hc=float(rng.uniform(0, 10.0)) if Vt == 1 else 20.0),
+                scalars=dict(temp=dict(kind="random", seed=case["idx"], lo=0.0, hi=20.0)), scalar_store="f8", metric=dict(kind="uniform", dx=dx, dy=dy))
+    M = W.make_mask(spec["mask"], jmax, imax)
+    H = W.make_h(spec["h"], jmax, imax)
+    i0, i1, j0, j1 = sub or [1, imax - 1, 1, jmax - 1]
+    rows = []
+    while len(rows) < 40:
+        x, y = float(rng.uniform(i0 + 1.6, i1 - 2.6)), float(rng.uniform(j0 + 1.6, j1 - 2.6))
+        if abs(x - np.floor(x) - 0.5) < 1e-3 or abs(y - np.floor(y) - 0.5) < 1e-3 or M[int(round(y)), int(round(x))] < 1:
+            continue
+        h = H[int(round(y)), int(round(x))]
+        rows.append([C.T0, x, y, float(rng.uniform(-0.05, 1.1) * h) if rng.random() < 0.8 else 0.0])
+    run = dict(start=C.T0, stop=str(tadd(C.T0, 2 * dt)), dt=dt, advection="EF", subgrid=sub, extra_forcing=["temp"],
+               release=dict(columns=["release_time", "X", "Y", "Z"], rows=rows, header=True),
+               state=dict(instance_variables=dict(temp="float"), default_values=dict(temp=0.0)),
+               output=dict(period=dt, instance=dict(pid="i4", X="f8", Y="f8", Z="f8", temp="f8")))
+    res, conf, world = run_scenario(dict(world=spec, run=run), wd)
+    V: list = []
+    sit: dict[str, int] = {}
+    cnt: dict[str, int] = {}
+    desc = dict(kind="e2e", grid=[imax, jmax, N], subgrid=sub, dx=dx, dy=dy, idx=case["idx"])
+    if not res.ok:
+        V.append(C.viol(f"end-to-end run did not complete: {res.exc}", tb=res.tb[-1200:], **desc))
+        return C.result(V, sit, cnt, nontrivial=True, key=f"e2e|{case['idx']}", sample=desc)
+    raw = read_frame0(world["files"], ["u", "v", "temp"])
+    ZR = world["G"]["zr"]
+    recs = all_records(read_outputs(res.outputs))
+    r0, r1 = recs[0], recs[1]
+    pos1 = {int(p): k for k, p in enumerate(r1.pid)}
+    for k, p in enumerate(r0.pid):
+        x, y, z = float(r0.vars["X"][k]), float(r0.vars["Y"][k]), float(r0.vars["Z"][k])
+        eu, ev, (jc, ic, cand) = ref_velocity(raw, M, ZR, x, y, z)
+        vals = [float(raw["temp"][kk, jc, ic]) for kk in cand]
+        sit["e2e_scalar_values_checked"] = sit.get("e2e_scalar_values_checked", 0) + 1
+        if not any(abs(float(r0.vars["temp"][k]) - t) <= 1e-9 for t in vals):
+            V.append(C.viol(f"record 0: scalar instance variable temp of pid {p} at ({x:.4f},{y:.4f},Z={z:.3f}) = {float(r0.vars['temp'][k])}; the particle's own cell ({jc},{ic}) holds {vals} at the bracketing levels", **desc))
+            break
+        tx, ty = x + eu * dt / dx, y + ev * dt / dy
+        if int(p) not in pos1:
+            continue
+        inside = (i0 + 0.5 < tx < i1 - 1.5) and (j0 + 0.5 < ty < j1 - 1.5)
+        k1 = pos1[int(p)]
+        x1, y1 = float(r1.vars["X"][k1]), float(r1.vars["Y"][k1])
+        if inside and M[int(round(ty)), int(round(tx))] > 0:
+            sit["e2e_displacements_checked"] = sit.get("e2e_displacements_checked", 0) + 1
+            if abs(x1 - tx) > 1e-9 or abs(y1 - ty) > 1e-9:
+                V.append(C.viol(f"one Euler-forward step moved pid {p} from ({x:.6f},{y:.6f},Z={z:.3f}) to ({x1:.8f},{y1:.8f}); the file's u, v interpolated at the particle's own position give "
+                                f"({tx:.8f},{ty:.8f})", **desc))
+                break
+    return C.result(V[:2], sit, cnt, nontrivial=sit.get("e2e_displacements_checked", 0) > 0, key=f"e2e|{case['idx']}", sample=dict(desc, particles=len(r0.pid)))
+
+
 def run_case(case: dict[str, Any], wd: Path) -> dict[str, Any]:
+    if case["kind"] == "e2e":
+        return run_e2e(case, wd)
     from ladim.ROMS import Forcing, Grid  # noqa: PLC0415
     from ladim.state import State  # noqa: PLC0415
     from ladim.timekeeper import TimeKeeper  # noqa: PLC0415
